@@ -195,13 +195,23 @@ func ReadStringList(r Reader, s *[]string) error {
 	default:
 		return ErrInvalidType
 	}
-	if s == nil || len(*s) < l {
-		*s = make([]string, l)
+	if len(*s) >= l {
+		for x := 0; x < l; x++ {
+			if err := r.ReadString(&(*s)[x]); err != nil {
+				return err
+			}
+		}
+		return nil
 	}
+	// NOTE: The count comes from the stream, so it must not size an allocation
+	//       by itself, grow the list as the entries arrive instead.
+	*s = (*s)[:0]
 	for x := 0; x < l; x++ {
-		if err := r.ReadString(&(*s)[x]); err != nil {
+		var v string
+		if err := r.ReadString(&v); err != nil {
 			return err
 		}
+		*s = append(*s, v)
 	}
 	return nil
 }
